@@ -11,7 +11,7 @@ PROPS = {
         targets=["c01_truth", "c01_model", "c01_complex", "c01_block"],
         level="exploration",
         rule="Sub-domain T (c01_truth/truthful, c01_complex, c01_block): tape-decoded systems with kappa_1(A) <= 1e4 by construction (dense; M-matrices on 10 graph families, contrast <= 30, anisotropy, "
-             "optional upwind convection; complex shifted/Hermitian; 2x2 block Kronecker/coupled/non-symmetric), n <= 400, rhs in {ones, random, A x_true}, x0 in {0, random, near solution}; "
+             "optional upwind convection; complex shifted/Hermitian; 2x2 block Kronecker/coupled/non-symmetric), n <= 400, rhs in {ones, random, A x_true}, x0 in {0, random, near solution}; call form solve(rhs, x) or solve(A2, rhs, x) with a system matrix A2 that differs from the setup matrix (same pattern, edge weights scaled within [0.5,2] / diagonal enlarged; the true residual and the conditioning K then refer to A2, the preconditioner B to the setup matrix); "
              "runtime interface make_solver<amg<B, runtime coarsening, runtime relaxation> | relaxation::as_preconditioner (via runtime::preconditioner), runtime::solver::wrapper<B>>: 8 solvers x {left,right} "
              "x 4 coarsenings x 9 relaxations x {ncycle, npre/npost 0..3, pre_cycles 0..2, coarse_enough, max_levels, direct_coarse, component parameters} x solver parameters (M, L, K, s, delta, convex, smoothing, "
              "replacement, omega, damping, check_after, maxiter 0..200); tol = max(drawn, 4000 u_P K (maxiter+2) G). Oracles: (a) |reported - true| <= 0.01 max + 200 u_P K (iters+2) G with the true residual in long double "
